@@ -30,6 +30,13 @@ def download_scenario(rng, plens, seed, outgoing):
             i = rng.randrange(n)
             ev.append(ev_msg(m_piece(i, rng.choice([0, 1, BLOCK, 5 * BLOCK]), bytes(rng.randrange(1, 9)))))
             continue
+        if r < 0.11:        # a block of ANOTHER piece whose offset and length match an outstanding request of this one
+            b, l = sim.requested[rng.randrange(len(sim.requested))]
+            other = (sim.idx + 1 + rng.randrange(max(n, 2) - 1)) % max(n, 2) if max(n, 2) > 1 else 1
+            if other == sim.idx:
+                other = (other + 1) % max(n, 2)
+            ev.append(ev_msg(m_piece(other, b, bytes([rng.randrange(256)]) * l)))
+            continue
         if r < 0.14 and steps > 1:   # duplicate of something already delivered (offset 0 of the piece)
             b, l = tiling(plens[sim.idx])[0]
             if (b, l) not in sim.requested:
